@@ -184,6 +184,20 @@ def builders():
         e.chop_radial(count=2)
         e.chop_tangential(count=4)
 
+    def chop_joint_sized(ts):
+        # the way examples/assembly/t_joint.py does it: a cell size along the circumference
+        def chop(e):
+            e.chop_axial(count=3)
+            e.chop_radial(count=2)
+            e.chop_tangential(start_size=ts)
+
+        return chop
+
+    for ts in (0.05, 0.02, 0.012, 0.008):
+        for jn, jcls in (("LJoint", cb.LJoint), ("TJoint", cb.TJoint)):
+            B[f"{jn}_sized{ts}"] = (lambda fr, s, jcls=jcls: jcls(P(fr, [0, 0, 0], s), P(fr, [2, 0, 0], s), P(fr, [0, 0.4, 0], s)), chop_joint_sized(ts), {"frames": [0]})
+        for n in (3, 4, 5):
+            B[f"NJoint{n}_sized{ts}"] = (lambda fr, s, n=n: cb.NJoint(P(fr, [0, 0, 0], s), P(fr, [2, 0, 0], s), P(fr, [0, 0.4, 0], s), n), chop_joint_sized(ts), {"frames": [0]})
     B["LJoint"] = (lambda fr, s: cb.LJoint(P(fr, [0, 0, 0], s), P(fr, [2, 0, 0], s), P(fr, [0, 0.4, 0], s)), chop_joint, {})
     B["TJoint"] = (lambda fr, s: cb.TJoint(P(fr, [0, 0, 0], s), P(fr, [2, 0, 0], s), P(fr, [0, 0.4, 0], s)), chop_joint, {})
     for n in (3, 4, 5, 6):
@@ -225,6 +239,10 @@ def cases(tier, seed):
         for fr in frames:
             for s in sizes:
                 out.append({"what": "shape", "name": name, "frame": fr, "size": s})
+    # sizes of a model written in millimetres: rings (their sketch checks that its faces are plane) and their relatives
+    for name in ("ExtrudedRing8", "Cylinder", "RevolvedRing", "Frustum", "Hemisphere"):
+        if name in B:
+            out.append({"what": "shape", "name": name, "frame": 4, "size": 2000.0})
     # placement by transformation: the entity is built in the canonical frame and then rotated + translated into
     # the frame by its own methods (this also places the stacks and the wedge, whose constructors take no frame)
     for name, (mk, chop, opt) in B.items():
@@ -309,6 +327,19 @@ def structural_checks(mesh, scale, expect_connected=True):
                 parent[find(b)] = find(lst[0])
         if len(lst) > 2:
             bad.append(("face-shared-by-more-than-two-blocks", f"{sorted(key)}: blocks {lst}"))
+    # curved edges given by a list of points run from their first vertex to their second: the path through the points
+    # is hardly longer than the straight way past them (a list that starts next to the END vertex doubles back)
+    for ed in mesh.edge_list.edges:
+        if ed.kind in ("spline", "polyLine", "curve"):
+            pa, pb = np.asarray(ed.vertex_1.position), np.asarray(ed.vertex_2.position)
+            pts_e = np.asarray(ed.point_array)
+            if len(pts_e) == 0:
+                continue
+            fwd = float(np.sum(np.linalg.norm(np.diff(np.vstack([pa, pts_e, pb]), axis=0), axis=1)))
+            rev = float(np.sum(np.linalg.norm(np.diff(np.vstack([pa, pts_e[::-1], pb]), axis=0), axis=1)))
+            if fwd > 1.2 * rev:
+                bad.append(("curved-edge-points-run-backwards", f"{ed.kind} {ed.vertex_1.index} {ed.vertex_2.index}: path through the points as listed {fwd:.4f}, through the reversed list {rev:.4f} (chord {np.linalg.norm(pb - pa):.4f})"))
+                break
     comps = len({find(b) for b in range(len(mesh.blocks))})
     if expect_connected and comps != 1:
         bad.append(("blocking-not-face-connected", f"{comps} face-connected components for {len(mesh.blocks)} blocks"))
